@@ -8,47 +8,43 @@ Open Scope Z_scope.
 
 Ltac Zify.zify_post_hook ::= Z.div_mod_to_equations.
 
-(* storing a handle in a pointer slot *)
+(* from the table invariant of the world back to the interpreter state *)
+Lemma sinv_of_tinv st objs pads w1 eo ep :
+  sinv st objs pads -> tinv w1 (objs ++ eo) (pads ++ ep) -> sinv (mkBSt w1 (st_h st)) (objs ++ eo) (pads ++ ep).
+Proof.
+  intros (_ & P & _) [H' C']. split; [exact H'|]. split; [|exact C'].
+  apply (pool_ok_incl objs); auto. intros x Hx. apply in_or_app. left. exact Hx.
+Qed.
+
+Lemma view_as_struct objs p : view objs p -> view objs (as_struct p) /\ (p_valid (as_struct p) = true -> p_kind (as_struct p) = KStruct).
+Proof.
+  intros V. unfold as_struct. destruct (is_struct p) eqn:E.
+  - split; [exact V|]. intros _. unfold is_struct in E. destruct (p_kind p); auto; rewrite Bool.andb_false_r in E; discriminate.
+  - split; [apply view_null|discriminate].
+Qed.
+
+(* storing any handle in a pointer slot (copies included) *)
 Lemma slot_store st objs pads f sd ad hs w1 :
   sinv st objs pads -> In (sd, ad) ((0, 0) :: flat_map slots objs) ->
-  (p_valid (snd (hget st hs)) = true -> p_member (snd (hget st hs)) = true ->
-   PointerCount (p_size (snd (hget st hs))) = 0) ->
   write_ptr f true (st_w st) sd ad (fst (hget st hs)) (snd (hget st hs)) false = Ok w1 ->
   nsegs (w_dst w1) < 4294967296 ->
   exists objs' pads', sinv (mkBSt w1 (st_h st)) objs' pads'.
 Proof.
-  intros S Hq Hpl HW Hns. pose proof S as (H & P & C).
+  intros S Hq HW Hns. pose proof S as (H & P & C).
   rewrite (hget_dst st objs pads hs S) in HW.
-  destruct (hget_view st objs pads hs S) as [Vw _]. set (q := snd (hget st hs)) in *.
-  destruct f as [|f]; [discriminate HW|].
-  destruct (p_valid q) eqn:EVq.
-  2:{ destruct (write_ptr_hinv f (st_w st) objs pads (sd, ad) q w1 H Hq (or_introl EVq) HW Hns) as [pads' H'].
-      exists objs, (pads ++ pads'). split; [exact H'|]. split; [exact P|exact C]. }
-  destruct (p_member q) eqn:EMq.
-  - (* a list member without pointers: copied into a fresh struct *)
-    assert (MA : exists h i, In h objs /\ member_at h i q).
-    { destruct Vw as [V|[[M V]|[X|[(_ & _ & M & _)|(_ & _ & M)]]]]; try congruence; try exact X. }
-    destruct (write_ptr_member_data f (st_w st) objs pads (sd, ad) q w1 H C Hq MA (Hpl eq_refl eq_refl) HW Hns)
-      as (objs' & pads' & H' & C' & I').
-    exists objs', pads'. split; [exact H'|]. split; [|exact C']. apply (pool_ok_incl objs); auto.
-  - (* a whole object *)
-    assert (Hsrc : p_valid q = false \/ In (core q) objs /\ p_member q = false \/
-                   p_kind q = KStruct /\ os_isZero (p_size q) = true \/
-                   p_kind q = KIface /\ 0 <= p_len q < 4294967296).
-    { right. destruct Vw as [V|[[M V]|[(h & i & Hh & MA)|[(Ek & Esz & _)|(Ek & Hl & _)]]]]; [congruence|auto| | |].
-      - destruct MA as (_ & _ & _ & _ & _ & _ & _ & _ & Mt). congruence.
-      - right. left. split; [exact Ek|]. rewrite Esz. reflexivity.
-      - right. right. auto. }
-    destruct (write_ptr_hinv f (st_w st) objs pads (sd, ad) q w1 H Hq Hsrc HW Hns) as [pads' H'].
-    exists objs, (pads ++ pads'). split; [exact H'|]. split; [exact P|exact C].
+  destruct (hget_view st objs pads hs S) as [Vw _].
+  destruct (copy_all f) as [QW _].
+  destruct (QW (st_w st) objs pads (sd, ad) (snd (hget st hs)) false w1) as (eo & ep & T); auto.
+  - split; auto.
+  - exists (objs ++ eo), (pads ++ ep). apply sinv_of_tinv; auto.
 Qed.
 
 Theorem bstep_hinv e st objs pads o st' out :
-  sinv st objs pads -> sub_op o = true -> plain_src st o -> bstep e st o = (Some st', out) ->
+  sinv st objs pads -> sub_op o = true -> bstep e st o = (Some st', out) ->
   nsegs (w_dst (st_w st')) < 4294967296 ->
   exists objs' pads', sinv st' objs' pads'.
 Proof.
-  intros S Hop Hpl. pose proof S as [H P]. unfold bstep. destruct o; try discriminate Hop; cbv zeta.
+  intros S Hop. pose proof S as [H P]. unfold bstep. destruct o; try discriminate Hop; cbv zeta.
   - (* NewStruct *)
     destruct (negb (valid_sid st sid)) eqn:EV.
     { intros E _. injection E as <- _. exists objs, pads. now apply sinv_push_null. }
@@ -345,7 +341,6 @@ Proof.
     { apply pointerAddress_eq; unfold maxSegmentSize; lia. }
     assert (Hq0 : In (p_seg p, pointerAddress p i) ((0, 0) :: flat_map slots objs)).
     { right. apply in_flat_map. exists ho. split; [exact Hin|]. rewrite PA. apply Hsl. lia. }
-    unfold plain_src in Hpl. cbn [src_handle] in Hpl.
     apply (slot_store st objs pads (e_fuel e) (p_seg p) (pointerAddress p i) hs w1); auto.
     rewrite EQ. exact ES.
   - (* PointerList.Set *)
@@ -363,9 +358,42 @@ Proof.
     destruct (list_elem_geom _ _ _ p i (mkOS 0 1) addr H Hin Hval Ek PE ltac:(left; reflexivity)) as (_ & _ & E3 & _).
     assert (Hq0 : In (p_seg p, addr) ((0, 0) :: flat_map slots objs)).
     { right. apply in_flat_map. exists (core p). split; [exact Hin|]. apply E3. reflexivity. }
-    unfold plain_src in Hpl. cbn [src_handle] in Hpl.
     apply (slot_store st objs pads (e_fuel e) (p_seg p) addr hs w1); auto.
     rewrite EQ. exact ES.
+  - (* List.SetStruct *)
+    destruct (hget st h) as [l p] eqn:EH. destruct (hget st hs) as [ls q] eqn:EQ.
+    destruct (is_src l) eqn:EL; [discriminate|].
+    unfold pset. destruct (list_set_struct (e_fuel e) (st_w st) (as_list p) i ls (as_struct q)) as [w1| |] eqn:ES; try discriminate.
+    intros E Hns. injection E as <- _. cbn [st_w] in Hns.
+    unfold list_set_struct in ES. destruct (p_bit (as_list p)); [discriminate|].
+    destruct (list_struct true (as_list p) i) as [de| |] eqn:ED; cbn [bind] in ES; try discriminate.
+    assert (Hval : p_valid (as_list p) = true).
+    { unfold list_struct in ED. destruct (p_valid (as_list p)); auto. cbn in ED. discriminate. }
+    destruct (as_list_valid p Hval) as [Eas Ek]. rewrite Eas in *.
+    destruct (hget_view st objs pads h S) as [Vw _]. rewrite EH in Vw. cbn [snd] in Vw.
+    destruct (list_view objs p Vw Hval Ek) as [Hin _].
+    destruct (list_struct_view objs p i de Hin Hval Ek ED) as [Vde Kde].
+    pose proof (hget_dst st objs pads hs S) as Els. rewrite EQ in Els. cbn [fst] in Els. subst ls.
+    destruct (hget_view st objs pads hs S) as [Vq _]. rewrite EQ in Vq. cbn [snd] in Vq.
+    destruct (view_as_struct objs q Vq) as [Vsq Ksq].
+    destruct (copy_all (e_fuel e)) as [_ QC]. destruct P as [P C].
+    destruct (QC (st_w st) objs pads de (as_struct q) w1) as (eo & ep & T); auto.
+    + split; auto.
+    + intros X. apply Kde. exact X.
+    + exists (objs ++ eo), (pads ++ ep). apply sinv_of_tinv; auto.
+  - (* Struct.CopyFrom *)
+    destruct (hget st h) as [l p] eqn:EH. destruct (hget st hs) as [ls q] eqn:EQ.
+    destruct (is_src l) eqn:EL; [discriminate|].
+    unfold pset. destruct (copy_struct (e_fuel e) true (st_w st) (as_struct p) ls (as_struct q)) as [w1| |] eqn:ES; try discriminate.
+    intros E Hns. injection E as <- _. cbn [st_w] in Hns.
+    destruct (hget_view st objs pads h S) as [Vp _]. rewrite EH in Vp. cbn [snd] in Vp.
+    pose proof (hget_dst st objs pads hs S) as Els. rewrite EQ in Els. cbn [fst] in Els. subst ls.
+    destruct (hget_view st objs pads hs S) as [Vq _]. rewrite EQ in Vq. cbn [snd] in Vq.
+    destruct (view_as_struct objs p Vp) as [Vsp Ksp]. destruct (view_as_struct objs q Vq) as [Vsq Ksq].
+    destruct (copy_all (e_fuel e)) as [_ QC]. destruct P as [P C].
+    destruct (QC (st_w st) objs pads (as_struct p) (as_struct q) w1) as (eo & ep & T); auto.
+    + split; auto.
+    + exists (objs ++ eo), (pads ++ ep). apply sinv_of_tinv; auto.
   - (* SetRoot *)
     destruct (hget st hs) as [ls q] eqn:EQ.
     unfold pset. destruct (set_root (e_fuel e) (st_w st) ls q) as [w1| |] eqn:ES; try discriminate.
@@ -373,7 +401,6 @@ Proof.
     unfold set_root, set_root_gen in ES.
     destruct (bm_segs (w_dst (st_w st))) as [|s0 r0] eqn:EB; [discriminate|].
     destruct (negb _); [discriminate|].
-    unfold plain_src in Hpl. cbn [src_handle] in Hpl.
     apply (slot_store st objs pads (e_fuel e) 0 0 hs w1); auto; [left; reflexivity|].
     rewrite EQ. exact ES.
   - (* read-side ops *)
@@ -455,23 +482,16 @@ Qed.
 Definition sub_prog (ops : list bop) : bool := forallb sub_op ops.
 Definition seg_bound (st : bstate) : Prop := nsegs (w_dst (st_w st)) < 4294967296.
 
-(* [plain_src] at every step of a run *)
-Fixpoint plain_run (e : benv) (st : bstate) (ops : list bop) : Prop :=
-  match ops with
-  | [] => True
-  | o :: r => plain_src st o /\ match bstep e st o with (Some st1, _) => plain_run e st1 r | _ => True end
-  end.
-
 Theorem brun_hinv e : forall ops st objs pads,
-  sinv st objs pads -> sub_prog ops = true -> plain_run e st ops -> Forall seg_bound (bstates e st ops) ->
+  sinv st objs pads -> sub_prog ops = true -> Forall seg_bound (bstates e st ops) ->
   Forall (fun st' => exists objs' pads', sinv st' objs' pads') (bstates e st ops).
 Proof.
-  induction ops as [|o r IH]; intros st objs pads S Hp Hpl Hb; cbn [bstates] in *; constructor; eauto.
+  induction ops as [|o r IH]; intros st objs pads S Hp Hb; cbn [bstates] in *; constructor; eauto.
   cbn [sub_prog forallb] in Hp. apply andb_prop in Hp. destruct Hp as [Ho Hr].
-  inversion Hb as [|? ? _ Hb']; subst. destruct Hpl as [Hpl1 Hpl2].
+  inversion Hb as [|? ? _ Hb']; subst.
   destruct (bstep e st o) as [[st1|] v] eqn:E; [|constructor].
   assert (B1 : seg_bound st1) by (destruct r; cbn [bstates] in Hb'; inversion Hb'; assumption).
-  destruct (bstep_hinv e st objs pads o st1 v S Ho Hpl1 E B1) as (objs1 & pads1 & S1).
+  destruct (bstep_hinv e st objs pads o st1 v S Ho E B1) as (objs1 & pads1 & S1).
   eapply IH; eauto.
 Qed.
 
@@ -576,11 +596,10 @@ Qed.
 Theorem heap_inv_sublang a cfgd cfgs ncaps fuel src ops m :
   arena_spec_wf a -> root_cap_ok a -> create a (init_rlimit cfgd) = Ok m -> sub_prog ops = true ->
   let st0 := mkBSt (mkW m src (init_rlimit cfgs)) [] in
-  plain_run (mkEnv cfgd cfgs ncaps fuel) st0 ops ->
   Forall seg_bound (bstates (mkEnv cfgd cfgs ncaps fuel) st0 ops) ->
   Forall (fun st => exists objs pads, sinv st objs pads) (bstates (mkEnv cfgd cfgs ncaps fuel) st0 ops).
 Proof.
-  intros Ha Hr Hc Hp st0 Hpl Hb.
+  intros Ha Hr Hc Hp st0 Hb.
   assert (B0 : seg_bound st0) by (destruct ops; cbn [bstates] in Hb; inversion Hb; assumption).
   apply (brun_hinv _ ops st0 [] []); auto.
   split; [cbn; eapply create_hinv; eauto|]. split; [constructor|intros h []].
